@@ -1,3 +1,140 @@
-"""`go e` part of C09 (threads): placeholder until the threaded machines are in place."""
+"""`go e` part of C09: exactly one concurrent activation is started, the spawner continues, and every interleaving of
+the activation with the spawner at Ref operations and prints that the source meaning allows is an interleaving of the
+emitted Go, and vice versa.
+
+GomlSem.tla and GoSem.tla carry the parked activations / goroutines in `par`; the scheduler (`Switch`) may run another
+one at any step, an activation that ends hands over to another one, and the program ends when main returns.  For each
+program TLC explores the whole state graph of both machines (fingerprint without the step counter, so spin loops close
+into cycles); the sets of terminal outcomes (status, output) must be equal."""
+import os
+from common import *
+from gast import *
+import gopipe, gohoist, tv, engine
+
+RI = TRef(INT32)
+
+
+def Go(e):
+    return {"k": "go", "e": e}
+
+
+def rget(r):
+    return Call("ref_get", Var(r))
+
+
+def rset(r, e):
+    return Do(Call("ref_set", Var(r), e))
+
+
+def spin_until(r, n):
+    return Stmt(While(Bin("<", rget(r), Int(n)), Block([], Unit)))
+
+
+def pr(s):
+    return println(Str(s))
+
+
+def programs(tier="thorough"):
+    out = []
+
+    def add(name, stmts, fns=()):
+        p = Program("c09go_" + name)
+        for f in fns:
+            p.fn(*f)
+        p.fn("main", [], UNIT, Block(stmts, Unit))
+        out.append({"prog": p, "family": "c09go", "ident": "c09go:" + name})
+
+    child = ("child", [("sig", RI)], UNIT, Call("ref_set", Var("sig"), Int(1)))
+    # the corpus shape: child signals, main waits, then prints
+    add("signal-then-print", [Let("s", Call("ref", Int(0))), Stmt(Go(Lam([], Call("child", Var("s"))))), spin_until("s", 1), pr("main")], [child])
+    # the spawner continues: it can print before, between and after the child's prints
+    add("spawner-continues", [Let("d", Call("ref", Int(0))), Stmt(Go(Lam([], Block([pr("c1"), pr("c2"), rset("d", Int(1))], Unit)))),
+                              pr("m1"), spin_until("d", 1), pr("m2")])
+    # racy read: main may see the old or the new value
+    add("racy-read", [Let("r", Call("ref", Int(0))), Let("d", Call("ref", Int(0))),
+                      Stmt(Go(Lam([], Block([rset("r", Int(7)), rset("d", Int(1))], Unit)))),
+                      Let("seen", rget("r")), spin_until("d", 1), println(show_int(Var("seen")))])
+    # exactly one activation: the counter is bumped once
+    add("exactly-one", [Let("c", Call("ref", Int(0))), Let("d", Call("ref", Int(0))),
+                        Stmt(Go(Lam([], Block([rset("c", Bin("+", rget("c"), Int(1))), rset("d", Int(1))], Unit)))),
+                        spin_until("d", 1), println(show_int(rget("c")))])
+    # two children, non-atomic increments: 1 or 2
+    bump = Lam([], Block([Let("t", rget("c")), rset("c", Bin("+", Var("t"), Int(1))), rset("d", Bin("+", rget("d"), Int(1)))], Unit))
+    add("lost-update", [Let("c", Call("ref", Int(0))), Let("d", Call("ref", Int(0))), Stmt(Go(bump)), Stmt(Go(bump)),
+                        Stmt(While(Bin("<", rget("c"), Int(1)), Block([], Unit))), println(show_int(rget("c")))])
+    # captures are taken when the closure is created, not when the activation runs
+    add("capture-at-spawn", [Let("x", Int(5)), Let("d", Call("ref", Int(0))),
+                             Stmt(Go(Lam([], Block([println(show_int(Var("x"))), rset("d", Int(1))], Unit)))),
+                             Let("x", Int(9)), spin_until("d", 1), println(show_int(Var("x")))])
+    # main returns while the child is still running: its print may or may not appear
+    add("main-returns-first", [Stmt(Go(Lam([], Block([pr("child")], Unit)))), pr("main")])
+    # the operand of go is evaluated by the spawner (its effects happen before the spawner's next statement)
+    mk = ("mk", [("tag", STRING)], TFn([], UNIT), Block([println(Var("tag"))], Lam([], Block([println(Str("run"))], Unit))))
+    add("operand-evaluated-by-spawner", [Stmt(Go(Call("mk", Str("made")))), pr("after")], [mk])
+    # go inside a loop: three activations
+    add("three-activations", [Let("c", Call("ref", Int(0))), Let("i", Call("ref", Int(0))),
+                              Stmt(While(Bin("<", rget("i"), Int(3)), Block([Stmt(Go(Lam([], Block([rset("c", Bin("+", rget("c"), Int(1)))], Unit)))),
+                                                                               rset("i", Bin("+", rget("i"), Int(1)))], Unit))),
+                              Stmt(While(Bin("<", rget("c"), Int(2)), Block([], Unit))), pr("done")])
+    if tier == "quick":          # the two largest state graphs (0.5 M and 3 M states) are explored in the thorough tier
+        out = [x for x in out if x["ident"] not in ("c09go:three-activations", "c09go:lost-update")]
+    return out
+
+
+def outcomes(reports):
+    return sorted({(r["status"], r.get("why", "") if r["status"] != "ok" else "", bytes(r["out"]).decode("utf-8", "replace")) for r in reports})
+
+
+def explore(module, cfg, rec, name):
+    d = os.path.join(WORK, "c09go-in")
+    os.makedirs(d, exist_ok=True)
+    f = f"{d}/{name}.ndjson"
+    write_lines(f, [rec])
+    r = run_tlc(module, cfg, env={"PROGS": f, "MAXSTEPS": 200000, "THREADS": 1}, workers=4, xmx="6g", timeout=1500, xss="512m", name="c09go-" + name)
+    if r.rc != 0:
+        raise ToolError(f"{module} failed on {name}: " + (r.error or r.stdout[-1500:]))
+    return r.json_prints("REPORT"), r.distinct
+
+
 def run(tier, rep):
-    rep.coverage["go_schedules_checked"] = 0
+    build_harness()
+    progs = programs(tier)
+    cases = tv.prepare_cases(progs, workdir("c09go"))
+    answers = gv_parallel("compile", [{"id": c["id"], "path": c["path"]} for c in cases])
+    checked = 0
+    states = 0
+    summary = {}
+    from concurrent.futures import ThreadPoolExecutor
+
+    def both(ca):
+        c, a = ca
+        if a["verdict"] != "ok":
+            return None
+        rec, err = gopipe.go_record(c["id"], a["go"])
+        if err:
+            raise ToolError("go parse: " + err)
+        rec = dict(rec, ast=gohoist.hoist(rec["ast"]))
+        return explore("GomlSem", "GomlSem_go.cfg", c["prog"].sem_record(), c["id"] + "-goml"), explore("GoSem", "GoSem_go.cfg", rec, c["id"] + "-go")
+    with ThreadPoolExecutor(max_workers=4) as ex:
+        explored = list(ex.map(both, zip(cases, answers)))
+    for (c, a), ex_ in zip(zip(cases, answers), explored):
+        ident = c["ident"]
+        if a["verdict"] != "ok":
+            rep.violation(ident + ":rejected", {"verdict": a["verdict"], "diagnostics": [d["msg"] for d in a.get("diags", [])][:3], "source": c["text"]})
+            continue
+        (src_reports, n1), (go_reports, n2) = ex_
+        states += n1 + n2
+        so, go_ = outcomes(src_reports), outcomes(go_reports)
+        summary[ident] = {"source_outcomes": [o[2] if o[0] == "ok" else o[0] + ":" + o[1] for o in so], "source_states": n1, "go_states": n2}
+        if any(o[0] in ("unsupported", "inconclusive") for o in so + go_):
+            summary[ident]["note"] = "left the modelled subset"
+            continue
+        checked += 1
+        if so != go_:
+            rep.violation(ident, {"source_outcomes": so, "go_outcomes": go_, "only_source": [o for o in so if o not in go_], "only_go": [o for o in go_ if o not in so],
+                                  "source": c["text"]}, replay={"path": c["path"]})
+    rep.coverage["go_schedules_checked"] = checked
+    rep.coverage["go_programs"] = summary
+    rep.coverage["go_states"] = states
+    if checked < 5:
+        raise ToolError(f"vacuity: only {checked} go programs compared")
